@@ -288,6 +288,41 @@ def _dial(scheme: str, uri: Any) -> tuple[Any, Any] | str:
     return seen[0]
 
 
+def _hsfz_ack_time(uri: Any) -> float | str:
+    """Connect an HSFZ transport to a gateway that never answers (in-memory streams, virtual time) and measure after how many
+    seconds an unacknowledged write gives up: that is the acknowledgement timeout the transport really runs with."""
+    from gallia.transports import HSFZTransport
+
+    from vf.vtime import MemWriter, run_virtual
+
+    box: dict[str, Any] = {}
+
+    async def fake_open(host=None, port=None, **kw):  # noqa: ANN001
+        return asyncio.StreamReader(), MemWriter()
+
+    async def go() -> None:
+        loop = asyncio.get_event_loop()
+        tr = await HSFZTransport.connect(uri, timeout=1)
+        t0 = loop.time()
+        try:
+            await tr.write(b"\x3e\x00", timeout=None)
+            box["res"] = "write returned"
+        except ConnectionError:
+            box["res"] = loop.time() - t0
+        except Exception as e:  # noqa: BLE001
+            box["res"] = f"{type(e).__name__}: {e}"
+        try:
+            await tr.close()
+        except Exception:  # noqa: BLE001
+            pass
+
+    with mock.patch("asyncio.open_connection", fake_open):
+        status, val, _ = run_virtual(go, max_virtual=1e6)
+    if status != "ok":
+        return f"{status}: {val!r}"
+    return box.get("res", "no result")
+
+
 _TA: dict[str, Any] = {}
 
 
@@ -358,6 +393,11 @@ def check(case: dict[str, Any]) -> list[tuple[str, str]]:
                 exp_port = port if port is not None else defport
                 if not _host_eq(dh, host) or dp != exp_port:
                     out.append((f"C20/dial/{scheme}/{shape}", f"{s}: dialled {(dh, dp)!r}, expected {(host, exp_port)!r}"))
+        if scheme == "hsfz" and not out and "ack_timeout" in expect:
+            # the timeout is written in milliseconds: the transport has to run with exactly that
+            t = _hsfz_ack_time(p)
+            if not isinstance(t, float) or abs(t - expect["ack_timeout"] / 1000) > 1e-3:
+                out.append(("C20/effective/hsfz/ack_timeout", f"{s}: an unacknowledged write gives up after {t!r} s, the URI says {expect['ack_timeout']} ms"))
         return out
     if k == "hp":
         host, port, default = case["host"], case["port"], case["default"]
